@@ -57,7 +57,7 @@ def _eval_of(agent, shared_name):
     return None
 
 
-def check_faithful(ctx, P, C, algo, tag="faithful"):
+def check_faithful(ctx, P, C, algo, tag="faithful", share=False):
     sp, sc = T.snapshot(P), T.snapshot(C)
     diffs = T.diff(sp, sc)
     # one precisely recognised class: encoder_config without "activation" -> the encoder's output activation is None in
@@ -87,6 +87,15 @@ def check_faithful(ctx, P, C, algo, tag="faithful"):
                           algo=algo, network=k, parent=_structure(fp[k])[-6:], clone=_structure(fc[k])[-6:])
     shared = _shared_names(C)
     resync = False
+    if share:
+        # share_encoders=True: every non-policy network's encoder holds a detached COPY of the policy's encoder taken at the last
+        # hook (construction / mutation / clone / load), not a live view; after learn steps the parent's copy is stale while a
+        # clone's is fresh -> one precisely recognised class
+        stale = [d for d in diffs if d.startswith("tensors.") and ".encoder." in d and not d.startswith(f"tensors.{P.registry.policy}")]
+        if stale:
+            ctx.abort(f"C01/{tag}/shared_encoder_copy_differs", "share_encoders=True: the non-policy networks' encoder copies differ between "
+                      "parent and clone (the parent's copy is only refreshed by hooks, the clone's was refreshed by clone())",
+                      algo=algo, diffs=stale[:4])
     for d in diffs:
         m = re.match(r"tensors\.([A-Za-z_0-9]+)((\[\d+\])*)\.", d)
         if m and m.group(1) in shared:
@@ -114,11 +123,12 @@ def run_faithful_independent(case, ctx):
     d = T.diff(before, T.snapshot(P))
     if d:
         ctx.fail(f"C01/clone_changed_parent/{_norm(d[0])}", f"clone() changed the parent: {d[0]}", diffs=d[:5])
-    resync = check_faithful(ctx, P, C1, algo)
+    share = bool(spec.get("share"))
+    resync = check_faithful(ctx, P, C1, algo, share=share)
     if C2 is not None:
-        check_faithful(ctx, P, C2, algo)
+        check_faithful(ctx, P, C2, algo, share=share)
     if G is not None:
-        check_faithful(ctx, C1, G, algo, tag="faithful_grandclone")
+        check_faithful(ctx, C1, G, algo, tag="faithful_grandclone", share=share)
     # hp registry / list objects must not be shared by identity either (supporting, effect-decided below)
     # ---- behaviour: same greedy action --------------------------------------
     if not resync:
@@ -189,6 +199,8 @@ def run_faithful_independent(case, ctx):
 
     ctx.label(f"algo={algo}")
     ctx.label(f"obs={spec.get('obs')}")
+    if spec.get("share"):
+        ctx.label("share_encoders")
     ctx.label(f"program={prog[0]}" + (f":{prog[1]}" if prog[0] == "mutate" else ""))
     if resync:
         ctx.label("resync-allowance-used")
@@ -207,7 +219,7 @@ def run_same_update(case, ctx):
         return
     with ctx.promised("C01/clone", algo=algo):
         C = P.clone()
-    resync = check_faithful(ctx, P, C, algo)
+    resync = check_faithful(ctx, P, C, algo, share=bool(spec.get("share")))
     sp, sc = T.snapshot(P), T.snapshot(C)
     if resync or T.diff(sp, sc, sections=("tensors", "arch")):
         ctx.label("resync-skip")  # target legitimately (or not: decided by the other obligation) differs
@@ -248,6 +260,8 @@ def spec_strategy(draw, algos=ag.ALL_ALGOS):
         fam = draw(st.sampled_from(SINGLE_FAMS))
     spec = {"algo": algo, "obs": fam, "obsv": draw(st.integers(0, 2)), "actv": draw(st.integers(0, 2)),
             "seed": draw(st.integers(0, 9999)), "netact": draw(st.integers(0, 7)) != 0}
+    if algo in ag.SINGLE_CONT + ["PPO"]:
+        spec["share"] = draw(st.booleans())
     if algo in ag.SINGLE_CONT:
         spec["act"] = draw(st.sampled_from(["box", "box_asym", "box_perdim"]))
     elif algo == "PPO":
@@ -301,7 +315,7 @@ PROPERTY = Property(
                    examples={"quick": 30, "thorough": 300}, shards={"quick": 4, "thorough": 16},
                    shrink_budget={"quick": 60, "thorough": 300}),
     ],
-    assumptions=["share_encoders=False (the default True cannot be constructed on Python 3.12 in the pinned tree, see DESIGN.md)",
+    assumptions=["share_encoders drawn True/False for PPO/DDPG/TD3 (constructible since the Protocol-isinstance repair)",
                  "weights are observed through parameters, buffers and plain tensor attributes of sub-modules (tensordict to_module targets)",
                  "exact comparisons: one torch thread, same seeds, same op order"],
 )
